@@ -68,3 +68,41 @@ def value_with_lin(st, lin):
         if v.lin is not None and lin_eq(v.lin, lin):
             return v
     return None
+
+
+FUTEX_PAIRS = (("_dispatch_once_wait", "_dispatch_gate_broadcast_slow"), ("_dispatch_wait_on_address", "_dispatch_wake_by_address"),
+               ("_dispatch_thread_event_wait_slow", "_dispatch_thread_event_signal_slow"), ("_dispatch_unfair_lock_lock_slow", "_dispatch_unfair_lock_unlock_slow"),
+               ("_dispatch_gate_wait_slow", "_dispatch_gate_broadcast_slow"))
+
+
+def rule_futex_key(rep, rid_prefix, prog, pairs=FUTEX_PAIRS):
+    """waiter / waker agreement on the futex key class: a FUTEX_WAIT on a shared key is never found by a FUTEX_WAKE on a private key"""
+    from dqsa import consts
+    rid = rep.rule(rid_prefix + "-FK", "sleep/wake pairing: the blocking side and the waking side of each primitive pass the same futex opflags (private vs shared key); "
+                   "the kernel matches waiters and wakers by key, a mismatch makes every wake-up find nobody", floor=4)
+    k = consts.get(["FUTEX_PRIVATE_FLAG"], unit="shims/lock", includes=("linux/futex.h",))
+    def flags(fname):
+        fn = prog.fn(fname, required=False)
+        if fn is None:
+            return None, []
+        rep.saw(fn)
+        out = []
+        for c in fn.all_insts():
+            if c.op == "call" and (c.callee or "").startswith("_dispatch_futex_"):
+                last = c.ops[-1]
+                out.append((c, last[1] if last[0] == "c" else None))
+        return fn, out
+    n = 0
+    for w, s_ in pairs:
+        fw, a = flags(w)
+        fs, b = flags(s_)
+        if not a or not b:
+            continue
+        n += 1
+        va, vb = {v for _, v in a}, {v for _, v in b}
+        ok = len(va) == 1 and va == vb and None not in va and va == {k["FUTEX_PRIVATE_FLAG"]}
+        rep.require(rid, ok, a[0][0].loc, w, "futex-key-mismatch:%s/%s" % (w, s_),
+                    "%s blocks with futex opflags %s while %s wakes with %s: different key classes, the wake-up never finds the sleeper and it sleeps forever although "
+                    "the awaited state was reached" % (w, sorted(map(str, va)), s_, sorted(map(str, vb))), sample={"wait": w, "wake": s_, "opflags": sorted(map(str, va | vb))})
+    if n < 4:
+        rep.unknown(rid, "fewer than 4 futex wait/wake pairs found (%d)" % n)
